@@ -124,8 +124,12 @@ def build_timer_case(hist, name):
                         "item": {"id": o["item"], "ops": []}})
         elif k == "tupd":
             ops.append({"op": "tupd", "tid": o["tid"], "t": list(o["t"])})
+            if o["tid"] < 0:
+                ops[-1]["kind"] = o["kind"]
         elif k in ("tdel", "tact"):
             ops.append({"op": k, "tid": o["tid"]})
+            if o["tid"] < 0:
+                ops[-1]["kind"] = o["kind"]
         elif k == "run":
             ops.append({"op": "run", "t": list(o["t"]), "idle": False})
         ops.append({"op": "nexp"})
